@@ -537,14 +537,15 @@ Proof.
   cbn [m_put hs]. rewrite H. cbn [hs]. apply set_nth_twice.
 Qed.
 
-Lemma sim_xnew s ss d : Refines s ss -> d < NSLOT ->
-  exists s', x_new s d = Ok (s', OD) /\ Refines s' (fst (sexec ss (XNew d))).
+Lemma sim_xnew s ss k d : Refines s ss -> d < NSLOT ->
+  exists s', x_new s k d = Ok (s', OD) /\
+    Refines s' (fst (let '(s1, id) := snew ss k None in (sput s1 d (Some id), OD))).
 Proof.
   intros RF Hd. pose proof (Refines_good _ _ RF) as G. pose proof RF as (_ & HS & K).
-  destruct (x_new_ok s d G Hd) as (s' & t & E & G' & _).
+  destruct (x_new_ok s k d G Hd) as (s' & t & E & G' & _).
   unfold x_new, m_new in E. cbn beta iota zeta in E.
   destruct (replace_fr2 _ _ _ _ _ _ E) as (F & H & ->). exists s'. split; [unfold x_new, m_new; exact E|].
-  cbn [sexec]. unfold snew, sput. cbn [fst sobjs shs]. split; [assumption|].
+  unfold snew, sput. cbn [fst sobjs shs]. split; [assumption|].
   split; [rewrite H; cbn [hs]; rewrite HS, (Sk_len s ss K); reflexivity|].
   eapply Sk_fr; [|exact F]. eapply Sk_new; [exact K|reflexivity].
 Qed.
@@ -607,6 +608,21 @@ Proof.
   unfold x_detach, m_take in *. cbn beta iota zeta in *. inv_ok E. eexists. split; [reflexivity|].
   rewrite (sslot_ref s ss RF). split; [assumption|]. split; [unfold sput; cbn [shs m_put hs]; rewrite HS; reflexivity|].
   exact K.
+Qed.
+
+Lemma sim_xclone s ss o d si : Refines s ss -> slot s si = Some o -> slot s d = None -> d < NSLOT ->
+  exists s', x_clone s o d = Ok (s', OD) /\ Refines s' (fst (sexec ss (XClone si d))) /\ snd (sexec ss (XClone si d)) = OD.
+Proof.
+  intros RF S Hs Hd. pose proof (Refines_good _ _ RF) as G. pose proof RF as ((I & P) & HS & K).
+  cbn [sexec]. rewrite (sslot_ref s ss RF), S.
+  destruct (inv_live s o I (H3_slot s si o S)) as (x & E & D).
+  destruct (Sk_l s ss o x K E) as (y & Ey & Ky & _). rewrite Ey, Ky.
+  unfold x_clone. rewrite (live_ok s o x E D). cbn [bind].
+  destruct (new_put_ok s (okind x) None d I P Hs Hd) as (G1 & _ & _); [discriminate|].
+  unfold m_new in *. cbn beta iota zeta in *. eexists. split; [reflexivity|]. split; [|reflexivity].
+  unfold snew. cbn [fst sput sobjs shs].
+  split; [assumption|]. split; [cbn [m_put hs shs]; rewrite HS, (Sk_len s ss K); reflexivity|].
+  eapply Sk_new; [exact K|reflexivity].
 Qed.
 
 (* ---------- every operation ---------- *)
@@ -684,7 +700,7 @@ Proof.
   - (* OUnforce *)
     destruct (sim_unforce s ss RF) as (s' & E & RF'). rewrite E. cbn [bind]. exists s'. split; [reflexivity|exact RF'].
   - (* XNew *)
-    destruct (sim_xnew s ss d RF (eqb_bound _ _ Hg ltac:(lia))) as (s' & E & RF'). exists s'. split; [|exact RF'].
+    destruct (sim_xnew s ss KCxx d RF (eqb_bound _ _ Hg ltac:(lia))) as (s' & E & RF'). exists s'. split; [|exact RF'].
     rewrite E. reflexivity.
   - (* XAssign *)
     destruct (sim_xassign s ss s0 d RF (eqb_bound _ _ Hg0 ltac:(lia))) as (s' & E & RF'). exists s'. split; [|exact RF'].
@@ -701,6 +717,13 @@ Proof.
     destruct (sim_xmove s ss s0 d RF (eqb_bound _ _ Hg0 ltac:(lia))) as (s' & E & RF'). exists s'. split; [exact E|exact RF'].
   - (* XDrop *)
     destruct (sim_unref s ss d RF) as (s' & E & RF'). exists s'. split; [exact E|exact RF'].
+  - (* XGen *)
+    destruct (sim_xnew s ss KXGen d RF (eqb_bound _ _ Hg ltac:(lia))) as (s' & E & RF'). exists s'. split; [|exact RF'].
+    rewrite E. reflexivity.
+  - (* XClone *)
+    destruct (kind_is_spec s _ _ Hg1) as (o & x & S & _). rewrite S.
+    destruct (sim_xclone s ss o d s0 RF S (is_none_true _ Hg0) (eqb_bound _ _ Hg2 ltac:(lia))) as (s' & E & RF' & T).
+    exists s'. rewrite T. split; [exact E|exact RF'].
 Qed.
 
 Lemma Refines_clear s ss : Refines s ss -> Refines (clear_log s) ss.
